@@ -25,14 +25,15 @@ Lemma renew_acked c ch now s m l x :
   exists r, snd (step c ch s (ORequest now m)) = Some r /\ r_type r = RAck /\ r_yi r = x.
 Proof.
   intros [Hsid [Hreq [Hsrc [Hci Hx]]]] s0 Hget Hst Hip Hmac Hnet Hexp Htk.
-  unfold step. fold s0. unfold handleRequest. rewrite Hsid, Hreq. simpl.
   assert (E1 : (m_src m =? ip_bcast) = false) by (apply N.eqb_neq; exact Hsrc).
-  rewrite E1. simpl. rewrite Hci.
-  assert (E2 : (x =? 0) = false) by (apply N.eqb_neq; exact Hx). rewrite E2.
+  assert (E2 : (x =? 0) = false) by (apply N.eqb_neq; exact Hx).
+  assert (Hcl : classify m = (Renewing, x)).
+  { unfold classify. rewrite Hsid, Hreq. simpl. rewrite E1. simpl. rewrite Hci. reflexivity. }
+  unfold step. fold s0. unfold handleRequest. rewrite Hcl, E2.
   unfold findOrCreate. unfold s0 at 1. rewrite parse_tbl, Hget. fold s0.
   rewrite Hnet, Bool.eqb_reflx, Hmac, N.eqb_refl. simpl.
-  rewrite Hst, Htk, Hip. simpl. rewrite N.eqb_refl, Hmac, N.eqb_refl. simpl.
-  assert (E3 : (l_exp l <? now)%Z = false) by lia. rewrite E3. simpl.
+  assert (E3 : (l_exp l <? now)%Z = false) by lia.
+  rewrite Hst, Htk, Hip, E3. simpl. rewrite N.eqb_refl, Hmac, N.eqb_refl. simpl.
   unfold do_ack. simpl. rewrite Hst. simpl. rewrite Hip.
   eexists. split; [reflexivity|]. split; reflexivity.
 Qed.
